@@ -31,7 +31,12 @@ def probe_keys(kind, g):
     return [k / 4 for k in range(-1, 2 * g + 2)]
 
 
+DECOY = None
+
+
 def value_of(iv):
+    if iv[0] == iv[1] == 1:
+        return None               # None is an ordinary value: the interval [1, 1] maps to it
     return "v%r_%r" % iv
 
 
@@ -122,6 +127,16 @@ def judge(r, kind, ivs, probes, cnt):
                     dict(rep, snippet=snippet(ivs, "# expected to construct")))
         return
     m = res[1]
+    # a second map that has been alive since the start of the run must not be affected by building this one
+    global DECOY
+    if DECOY is None:
+        DECOY = ImmutIntervalMap({(0, 1): "d0", (3, 4): "d1"})
+    dec = (observe(DECOY.__getitem__, 1), observe(DECOY.__getitem__, 2), observe(DECOY.__getitem__, 3.5), observe(list, DECOY))
+    if dec != (("ok", "d0"), ("exc", "KeyError"), ("ok", "d1"), ("ok", [((0, 1), "d0"), ((3, 4), "d1")])):
+        r.violation(dict(base, op="other-instance", kind="other-instance-disturbed"),
+                    "after building ImmutIntervalMap(%r) an older map {(0,1):'d0',(3,4):'d1'} answers [1], [2], [3.5], list -> %r" % (
+                        mapping, dec), dict(rep, snippet=snippet(ivs, "# an older map built before must still answer as before")))
+        DECOY = None
     if len(ivs) >= 2 and cnt["valid_multi"] in (1, 7, 40):
         r.sample({"grid": kind, "mapping": [[list(iv), value_of(iv)] for iv in ivs],
                   "lookups": [[k, observe(m.__getitem__, k)] for k in probes]})
